@@ -229,6 +229,13 @@ Theorem range_complete : forall G gmul gone ginv geqb g h Hsh,
 Proof. exact range_complete_w. Qed.
 Print Assumptions range_complete.
 
+(* the range is inclusive at both ends: for a <= v <= b the builder never refuses the value (it raises
+   ValueError exactly when the value is outside, next theorem); range_complete then applies to what it returns *)
+Theorem range_inside_not_refused : forall G gmul gone ginv g h Hsh v a b rd, a <= v <= b ->
+  create_attest_pair G gmul gone ginv g h Hsh v a b rd <> Raise ValueError.
+Proof. exact range_inside_not_refused_l. Qed.
+Print Assumptions range_inside_not_refused.
+
 (* partial: for a value outside [a, b] the honest construction never returns a proof (math.sqrt raises,
    or - exactly at a-1 and b+1 - the loop drawing m4 cannot end).  Missing: soundness against a prover
    who does not follow create_attest_pair (a cryptographic reduction, not attempted). *)
@@ -318,6 +325,8 @@ Proof. vm_compute. repeat split. Qed.
 Example c18_range_runs :
   let c18_rd := MkRR 1234 77 9 100003 5000 123456789 4242 777 (5, 6, 7) (8, 9, 10, 11) (12, 13, 14, 15) in
   prove_and_check ev ev_mul ev_one ev_inv ev_eqb ev_g ev_h (ev_hash []) 30 18 200 18 200 40000 50000 c18_rd = Ok true
+  /\ prove_and_check ev ev_mul ev_one ev_inv ev_eqb ev_g ev_h (ev_hash []) 18 18 200 18 200 40000 50000 c18_rd = Ok true
+  /\ prove_and_check ev ev_mul ev_one ev_inv ev_eqb ev_g ev_h (ev_hash []) 200 18 200 18 200 40000 50000 c18_rd = Ok true
   /\ prove_and_check ev ev_mul ev_one ev_inv ev_eqb ev_g ev_h (ev_hash []) 30 18 200 31 200 40000 50000 c18_rd = Ok false
   /\ prove_and_check ev ev_mul ev_one ev_inv ev_eqb ev_g ev_h (ev_hash []) 17 18 200 18 200 40000 50000 c18_rd = Raise OutOfFuel
   /\ prove_and_check ev ev_mul ev_one ev_inv ev_eqb ev_g ev_h (ev_hash []) 201 18 200 18 200 40000 50000 c18_rd = Raise OutOfFuel
